@@ -31,6 +31,140 @@ def ptr_sub(t, base_pred, off_pred):
 SHIFT = {1: 'shift_in_one_byte', 2: 'shift_in_two_bytes', 3: 'shift_in_three_bytes'}
 
 
+def find_rules(cx, b, one, fam, k, tag):
+    """Slim/Fat<V, k>::find and find_one, tabulated over haystack lengths on the iteration summaries."""
+    from acverif.sym import simulate, SimError, Sym, summarize, canon, cstr, teval, row_consistent
+    from acverif.rl import param_at, Unsupported, EvalPanic
+    LANE = 16
+    S = 1000
+    START, END = cstr(param_at(b, 2)), cstr(param_at(b, 3))
+
+    def ex(t):
+        if lane_const(t, fam):
+            return LANE
+        if t[0] == 'discr' and is_call(t[1], r'::find_one$'):
+            return 0
+        return None
+    why_c = why_l = why_t = why_r = why_a = why_i = None
+    for n in list(range(LANE + k - 1, 3 * LANE + k + 4)):
+        E = S + n
+        try:
+            ev, end, ret = simulate(cx.facts, b, {START: S, END: E}, extra_atoms=ex)
+        except SimError as e:
+            why_c = why_c or '%s::find cannot be tabulated for a haystack of %d bytes: %s' % (tag, n, e)
+            continue
+        calls = [e for e in ev if re.search(r'%s%s::find_one$' % (GEN, fam), e[0])]
+        want = []
+        cur = S + k - 1
+        while cur <= E - LANE:
+            want.append(cur)
+            cur += LANE
+        tail = cur < E
+        if tail:
+            want.append(E - LANE)
+        got = [c[2][1] for c in calls]
+        if got and got[0] != S + k - 1:
+            why_c = why_c or '%s: the first window starts at start + %s (expected start + %d)' % (tag, None if got[0] is None else got[0] - S, k - 1)
+        elif got != want:
+            over = [g for g in got if g is None or g + LANE > E or g < S + k - 1]
+            msg = '%s: for %d bytes the windows start at %s (expected %s)' % (tag, n, [None if g is None else g - S for g in got], [w - S for w in want])
+            if over:
+                if tail and over[-1] == got[-1]:
+                    why_t = why_t or msg + ': the tail window is not at end - lane width'
+                else:
+                    why_l = why_l or msg + ': a window is read beyond end - lane width'
+            elif tail and got[:-1] == want[:-1]:
+                why_t = why_t or msg
+            else:
+                why_c = why_c or msg
+        if any(c[2][2] != E for c in calls):
+            why_a = why_a or '%s: find_one does not receive `end`' % tag
+        if not (ret is None or (isinstance(ret, tuple) and ('None' in ret or is_call(ret, r'::find_one$')))):
+            why_c = why_c or '%s: a search without candidates returns %s' % (tag, ret)
+        for idx, c in enumerate(calls):
+            carries = c[3][3:]
+            if len(carries) != k - 1:
+                why_a = why_a or '%s: find_one is called with %d carry vectors (expected %d)' % (tag, len(carries), k - 1)
+                continue
+            is_tail = tail and idx == len(calls) - 1 and got == want
+            for cj in carries:
+                fresh = is_call(canon(cj), r'Vector::splat$') and canon(cj)[2][0] == ('c', 255)
+                if is_tail and not fresh:
+                    why_r = why_r or '%s: a carry vector keeps stale bits from a non-adjacent window in the tail search (candidates are cleared, matches missed)' % tag
+        if calls:
+            # carries are distinct loop-carried locals passed in a fixed order
+            first = [cstr(x) for x in calls[0][3][3:]]
+            if len(set(first)) != len(first):
+                why_a = why_a or '%s: the same carry vector is passed twice' % tag
+    # carries initialised to splat(0xFF) on arrival at the loop
+    loops = b.loops()
+    ok_init = True
+    ncar = 0
+    if loops:
+        h = max(loops, key=lambda x: len(loops[x]))
+        arr = [r for r in Sym(cx.facts, b, start=0, stop={h}).rows() if r.end == ('stop', h)]
+        vecs = [l for l, loc in enumerate(b.locals) if l > b.j['arg_count'] and loc['names'] and loc['ty'] in ('V', '<V as packed::vector::FatVector>::Half')]
+        for r in arr:
+            for l in vecs:
+                v = r.env.get(l)
+                if v is None:
+                    continue
+                ncar += 1
+                if not (is_call(canon(v), r'Vector::splat$') and canon(v)[2][0] == ('c', 255)):
+                    ok_init = False
+        if not arr:
+            ok_init = False
+    if k > 1 and (ncar < k - 1 or not ok_init):
+        why_i = '%s: the %d carry vector(s) are not initialised to splat(0xFF) before the first window' % (tag, k - 1)
+    cx.report('R06.1', b, 'cursor', why_c is None, '%s: windows start at start + %d and advance by the lane width (tabulated for %d haystack lengths)' % (tag, k - 1, 2 * LANE + 5) if why_c is None else why_c)
+    cx.report('R15.3', b, 'loop-window', why_l is None and why_c is None, '%s: the in-loop window is read only while cur <= end - lane width' % tag if why_l is None and why_c is None else (why_l or why_c))
+    cx.report('R15.3', b, 'tail-window', why_t is None and why_c is None, '%s: the tail window is read at exactly end - lane width, only if cur < end' % tag if why_t is None and why_c is None else (why_t or why_c))
+    cx.report('R06.1', b, 'carry-vectors', why_i is None, '%s: %d carry vector(s), initialised to splat(0xFF)' % (tag, k - 1) if why_i is None else why_i)
+    if k > 1:
+        cx.report('R06.2', b, 'tail-reset', why_r is None, '%s: every carry vector is reset to splat(0xFF) before the (non-adjacent) tail window' % tag if why_r is None else why_r)
+    cx.report('R06.1', b, 'find_one-args', why_a is None, '%s: find_one(cur, end, carries)' % tag if why_a is None else why_a)
+    # find_one: verify from cur - (k-1), guarded by !is_zero
+    rows = [r for r in summarize(cx.facts, one) if r.end == 'return']
+    CUR, EN = cstr(param_at(one, 2)), cstr(param_at(one, 3))
+    carry_params = [cstr(param_at(one, i)) for i in range(4, 4 + k - 1)]
+    whyv = None
+    nv = 0
+    for r in rows:
+        vs = [canon(c) for c in r.calls(r'%sTeddy::verify$' % GEN)]
+        cands = [canon(c) for c in r.calls(r'%s%s::candidate$' % (GEN, fam))]
+        if len(cands) != 1 or [cstr(x) for x in cands[0][2]] != [cstr(param_at(one, 1)), CUR] + carry_params:
+            whyv = whyv or '%s: find_one does not compute candidate(cur, carries in order) exactly once' % tag
+            continue
+        C = cands[0]
+        z = r.cond(lambda c: is_call(canon(c), r'Vector::is_zero$') and cstr(canon(c)[2][0]) == cstr(C))
+        if vs:
+            nv += 1
+            v = vs[0]
+            try:
+                base = teval(v[2][1], lambda t: 500 if cstr(t) == CUR else None)
+            except (Unsupported, EvalPanic):
+                base = None
+            if z is not False:
+                whyv = whyv or '%s: verification runs without the candidate vector being non-zero' % tag
+            elif len(vs) != 1 or cstr(v[2][0]) != 'self.teddy' or base != 500 - (k - 1) or cstr(v[2][2]) != EN or cstr(v[2][3]) != cstr(C):
+                whyv = whyv or '%s: verification does not start at cur - %d with the candidate of this window (base offset %s)' % (tag, k - 1, None if base is None else base - 500)
+            else:
+                dv = r.cond(lambda c: c[0] == 'discr' and is_call(c[1], r'Teddy::verify$'))
+                ret = canon(r.ret) if r.ret is not None else None
+                if dv == 1 and not (ret is not None and (cstr(ret) == cstr(v) or (is_agg(ret, r'Option$', 'Some') and cstr(ret[3]['0']) == cstr(('f', ('dc', v, 'Some'), '0'))))):
+                    whyv = whyv or '%s: a verified match is not returned' % tag
+                if dv is None and ret is not None and cstr(ret) != cstr(v):
+                    whyv = whyv or '%s: the verification result is dropped' % tag
+        else:
+            if z is not True and not is_agg(r.ret, r'Option$', 'None'):
+                whyv = whyv or '%s: a window with candidates is not verified' % tag
+            if z is False:
+                whyv = whyv or '%s: a non-zero candidate vector is not verified' % tag
+    if nv == 0:
+        whyv = whyv or '%s: no path verifies candidates' % tag
+    cx.report('R06.1', one, 'verify-base', whyv is None, '%s: candidates are verified from cur - %d (the window\'s first fingerprint byte), exactly when the candidate vector is non-zero' % (tag, k - 1) if whyv is None else whyv)
+
+
 @only(X86)
 def r06_1(cx):
     n = 0
@@ -42,104 +176,8 @@ def r06_1(cx):
             cand = cx.body('%s%s::<V, %d>::candidate' % (GEN, fam, k))
             tag = '%s<%d>' % (fam, k)
             b = find
-            L = lambda t: lane_const(t, fam)
-            cl = b.locals_named('cur')
-            CUR = ('v', 'cur', cl[0])
-            isv = lambda name: (lambda t: is_var(t, name))
-            defs = var_defs_terms(b, cl[0])
-            kinds = {}
-            for bi, si, t in defs:
-                if (k == 1 and is_var(t, 'start')) or (k > 1 and ptr_add(t, isv('start'), lambda o: o == ('c', k - 1))):
-                    kinds.setdefault('init', []).append(bi)
-                elif ptr_add(t, lambda x: x == CUR, L):
-                    kinds.setdefault('stride', []).append(bi)
-                elif ptr_sub(t, isv('end'), L):
-                    kinds.setdefault('tail', []).append(bi)
-                else:
-                    kinds.setdefault('other', []).append((bi, tstr(t, 80)))
-            okc = set(kinds) == {'init', 'stride', 'tail'} and all(len(v) == 1 for v in kinds.values())
-            cx.report('R06.1', b, 'cursor', okc, '%s: cur = start + %d; cur += lane width; tail cur = end - lane width' % (tag, k - 1) if okc else '%s cursor definitions deviate: %s' % (tag, {kk: (vv if kk == 'other' else len(vv)) for kk, vv in kinds.items()}))
-            ones = [(bi, b.call_term(bi, t)) for bi, t in b.calls(r'%s%s::find_one$' % (GEN, fam))]
-            loops = b.loops()
-            okshape = len(ones) == 2 and len(loops) == 1
-            if not (okc and okshape):
-                cx.report('R15.3', b, 'window', False, '%s::find does not have the (loop, tail) shape with two find_one calls' % tag)
-                continue
-            h, blks = list(loops.items())[0]
-            inl = [x for x in ones if x[0] in blks]
-            tl = [x for x in ones if x[0] not in blks]
-            # loop guard: cur <= end - L
-            def norm(y):
-                if y == CUR:
-                    return atom('CUR')
-                if ptr_sub(y, lambda e: is_var(e, 'end') or e == atom('END'), L):
-                    return atom('LIM')
-                if is_var(y, 'end'):
-                    return atom('END')
-                return None
-            lg, tg = [], []
-            for blk, sc in b.switches():
-                if sc[0] != 'bool':
-                    continue
-                cn = cmp_norm(rewrite(sc[1], norm))
-                if cn == cmp_norm(('op', 'Le', atom('CUR'), atom('LIM'))):
-                    lg.append((blk, [(blk, t) for t in sc[2]], [(blk, t) for t in sc[3]]))
-                if cn == cmp_norm(('op', 'Lt', atom('CUR'), atom('END'))):
-                    tg.append((blk, [(blk, t) for t in sc[2]], [(blk, t) for t in sc[3]]))
-            okl = len(inl) == 1 and bool(lg) and not reachable_without(b, [inl[0][0]], [e for g in lg for e in g[1]])
-            # no cursor update between the guard and the in-loop load
-            if okl:
-                for bi, si, t in defs:
-                    if inl[0][0] in b.reach_after(bi, cut_blocks=[g[0] for g in lg]) - {g[0] for g in lg}:
-                        okl = False
-            cx.report('R15.3', b, 'loop-window', okl, '%s: the in-loop window is read only while cur <= end - lane width' % tag if okl else '%s: the in-loop load is reachable without `cur <= end - lane width` for the current cur' % tag)
-            okt = len(tl) == 1 and bool(tg) and not reachable_without(b, [tl[0][0]], [e for g in tg for e in g[1]])
-            if okt:
-                rd = reaching_defs(b, cl[0], tl[0][0])
-                okt = len(rd) == 1 and rd[0][0] == kinds['tail'][0]
-            cx.report('R15.3', b, 'tail-window', okt, '%s: the tail window is read at exactly end - lane width, only if cur < end' % tag if okt else '%s: the tail load is not at end - lane width behind `cur < end`' % tag)
-            # prev vectors
-            prevs = sorted({nm for l in b.locals for nm in l['names'] if re.match(r'prev\d$', nm)})
-            okp = prevs == ['prev%d' % j for j in range(k - 1)]
-            okinit = okp
-            okreset = okp
-            for pj in prevs:
-                pl = b.locals_named(pj)[0]
-                pd = var_defs_terms(b, pl)
-                vals_ok = all(is_call(t, r'Vector::splat$') and t[2][0] == ('c', 255) for bi, si, t in pd)
-                inits = [bi for bi, si, t in pd if bi not in blks and b.dominates(bi, h)]
-                resets = [bi for bi, si, t in pd if bi not in blks and not b.dominates(bi, h)]
-                if not (vals_ok and len(inits) == 1):
-                    okinit = False
-                # R06.2: on the tail path the carry vector is reset before the tail find_one
-                if okt and tg:
-                    if not all(must_pass(b, [tl[0][0]], resets, src=tgt) for g in tg for _, tgt in g[1]) or not resets:
-                        okreset = False
-            cx.report('R06.1', b, 'carry-vectors', okp and okinit, '%s: %d carry vector(s), initialised to splat(0xFF)' % (tag, k - 1) if okp and okinit else '%s: carry vectors %s are not exactly prev0..prev%d initialised to splat(0xFF)' % (tag, prevs, k - 2))
-            if k > 1:
-                cx.report('R06.2', b, 'tail-reset', okreset, '%s: every carry vector is reset to splat(0xFF) between cur = end - lane width and the tail find_one' % tag if okreset else
-                          '%s: a carry vector keeps stale bits from a non-adjacent window in the tail search (candidates are cleared, matches missed)' % tag)
-            # find_one arguments
-            oka = True
-            for bi, ct in ones:
-                a = [peel(x) for x in ct[2]]
-                want = ['self', 'cur', 'end'] + prevs
-                if [x[1] if is_var(x) else '?' for x in a] != want:
-                    oka = False
-            cx.report('R06.1', b, 'find_one-args', oka, '%s: find_one(cur, end, carries in order)' % tag if oka else '%s: find_one receives its arguments in another order' % tag)
-            # find_one: verify from cur - (k-1), guarded by !is_zero
-            vb = [(bi, one.call_term(bi, t)) for bi, t in one.calls(r'%sTeddy::verify$' % GEN)]
-            okv = False
-            if len(vb) == 1:
-                ct = vb[0][1]
-                p = ct[2][1]
-                okpos = (is_var(peel(p), 'cur') if k == 1 else ptr_sub(p, isv('cur'), lambda o: o == ('c', k - 1)))
-                cterm = expand_vars(one, ct[2][3], keep=('self', 'cur'))
-                okc2 = is_call(cterm, r'%s%s::candidate$' % (GEN, fam)) and [peel(x)[1] if is_var(peel(x)) else '?' for x in cterm[2]] == ['self', 'cur'] + prevs
-                zg = bool_gates(one, lambda x: is_call(x, r'Vector::is_zero$'))
-                okz = bool(zg) and not reachable_without(one, [vb[0][0]], [e for g in zg for e in g[3]])
-                okv = okpos and okc2 and okz and tstr(peel(ct[2][0])) == 'self.teddy' and is_var(peel(ct[2][2]), 'end')
-            cx.report('R06.1', one, 'verify-base', okv, '%s: candidates are verified from cur - %d (the window\'s first fingerprint byte)' % (tag, k - 1) if okv else '%s: verification does not start at cur - %d with the candidate of this window' % (tag, k - 1))
+            prevs = ['prev%d' % j for j in range(k - 1)]
+            find_rules(cx, find, one, fam, k, tag)
             # candidate
             c = cand
             load = 'Vector::load_unaligned' if fam == 'Slim' else 'FatVector::load_half_unaligned'
@@ -187,32 +225,32 @@ def r06_1(cx):
 
 @only(X86)
 def r06_3(cx):
+    from acverif.sym import simulate, SimError, cstr
+    from acverif.rl import param_at
     v = cx.body(GEN + 'Teddy::<BUCKETS>::verify64')
-    BK = ('k', 'param:BUCKETS', None)
-    cl = [l for l in v.locals_named('cur')]
-    okcur = False
-    for l in cl:
-        d = v.def_term(l)
-        if d is not None and is_call(d, r'const_ptr::add$') and is_var(peel(d[2][0]), 'cur') and d[2][1][0] == 'op' and d[2][1][1] == 'Div' and is_var(d[2][1][2], 'bit') and d[2][1][3] == BK:
-            okcur = True
-    bl = v.locals_named('bucket')
-    okb = False
-    if bl:
-        d = v.def_term(bl[0])
-        okb = d is not None and d[0] == 'op' and d[1] == 'Rem' and is_var(d[2], 'bit') and d[3] == BK
-    bitl = v.locals_named('bit')
-    okbit = False
-    if bitl:
-        d = strip_convs(expand_vars(v, v.def_term(bitl[0]) or ('s', ''), keep=('candidate_chunk',)))
-        okbit = 'trailing_zeros(candidate_chunk)' in tstr(d).replace('core::num::', '')
-    vb = [v.call_term(bi, t) for bi, t in v.calls(r'Teddy::verify_bucket$')]
-    okcall = len(vb) == 1 and [peel(x)[1] if is_var(peel(x)) else '?' for x in vb[0][2]] == ['self', 'cur', 'end', 'bucket']
-    # lowest bit first, cleared each round
-    cc = [(bi, t) for l in v.locals_named('candidate_chunk') for bi, si, t in var_defs_terms(v, l)]
-    okclr = any(t[0] == 'op' and t[1] == 'BitAnd' and 'Not(Shl(1, bit))' in tstr(t) for bi, t in cc)
-    ok = okcur and okb and okbit and okcall and okclr
-    cx.report('R06.3', v, 'bit-geometry', ok, 'verify64: lowest set bit first; base += bit / BUCKETS; bucket = bit % BUCKETS; bit cleared' if ok else
-              'verify64 geometry deviates (base=%s bucket=%s bit=%s call=%s clear=%s)' % (okcur, okb, okbit, okcall, okclr))
+    CUR, END, CH = (cstr(param_at(v, i)) for i in (2, 3, 4))
+    why = None
+    n = 0
+    for B in (8, 16):
+        def ex(t, B=B):
+            if t[0] == 'k' and t[1] == 'param:BUCKETS':
+                return B
+            if t[0] == 'discr' and is_call(t[1], r'Teddy::verify_bucket$'):
+                return 0
+            return None
+        for c in (0, 1, 2, 0b1010, 1 << 7, 1 << 8, (1 << 15) | (1 << 16), 1 << 63, (1 << 63) | 1, 0x8000000000000100, 0xF0F0, 0x123456789ABCDEF0):
+            n += 1
+            try:
+                ev, end, ret = simulate(cx.facts, v, {CUR: 1000, END: 5000, CH: c}, extra_atoms=ex, maxiter=80)
+            except SimError as e:
+                why = why or 'verify64 cannot be tabulated for candidate bits %#x: %s' % (c, e)
+                continue
+            got = [(e[2][1], e[2][2], e[2][3]) for e in ev if re.search(r'Teddy::verify_bucket$', e[0])]
+            want = [(1000 + bit // B, 5000, bit % B) for bit in range(64) if c >> bit & 1]
+            if got != want:
+                why = why or 'with BUCKETS=%d and candidate bits %#x the buckets verified are %s, expected %s (lowest bit first; position = base + bit / BUCKETS; bucket = bit %% BUCKETS; every bit once)' % (
+                    B, c, [(None if a is None else a - 1000, k) for a, _, k in got][:6], [(a - 1000, k) for a, _, k in want][:6])
+    cx.report('R06.3', v, 'bit-geometry', why is None, 'verify64: lowest set bit first; base += bit / BUCKETS; bucket = bit %% BUCKETS; bit cleared (tabulated for %d candidate words on the iteration summaries)' % n if why is None else why)
     for buckets, step in ((8, 8), (16, 4)):
         c = None
         for p, b in cx.facts.bodies.items():
@@ -377,7 +415,7 @@ def r15_4(cx):
             continue
         reads = {1000: [], 2000: []}
         why = None
-        for nm, blk, vals in ev:
+        for nm, blk, vals, _terms, _row in ev:
             if not re.search(r'const_ptr::(read|read_unaligned)$', nm):
                 continue
             w = SZ.get(b.term(blk)['callee']['gargs'][0])
